@@ -57,7 +57,8 @@ def spike(tier, carrier='list_none', min_n=1):
 
 
 def rate_of_change(tier, carrier='list_none', tcarrier='dt64'):
-    axes = {'regular': lambda n: regular(n), 'irregular': lambda n: [100, 110, 140, 141, 86541, 86600][:n]}
+    axes = {'regular': lambda n: regular(n), 'irregular': lambda n: [100, 110, 140, 141, 86541, 86600][:n],
+            'multiday': lambda n: [100, 90100, 90130, 349335, 349336, 435736][:n]}
     for name, ax in axes.items():
         for thr in (1, Fr(1, 2), 0):
             for n in lengths(tier, [0, 1, 2, 3, 4], [0, 1, 2, 3, 4, 5]):
@@ -100,6 +101,13 @@ def attenuated(tier, carrier='list_none', tcarrier='dt64'):
                     variants = [dict()]
                     if n >= 2:
                         variants += [dict(test_period=20), dict(test_period=25, min_obs=2), dict(test_period=30, min_period=20)]
+                    if n >= 4 and ct == 'range' and (s, f) == (2, 1):
+                        # irregular axis: the sampling step used for min_period is the median step
+                        for tt in ([100, 110, 120, 130, 230][:n], [100, 200, 210, 220, 230][:n]):
+                            kw = dict(suspect_threshold=Fr(s), fail_threshold=Fr(f), test_period=30, min_period=30, check_type=ct)
+                            c = Case('attenuated_signal_test', [data_input('inp', pat, carrier), time_input('tinp', tt, tcarrier)], kw, n=n,
+                                     pat={'inp': pat}, meta={'class': 'irregular-window', 't': tt})
+                            yield c, specs.Attenuated(c)
                         if tier == 'thorough':
                             variants += [dict(test_period=10), dict(test_period=20, min_obs=3), dict(test_period=1000)]
                     for extra in variants:
@@ -208,7 +216,7 @@ def gross_range(tier, carrier='list_none'):
 
 
 def valid_range(tier, carrier='ndarray'):
-    bounds = [(1, 3), (2, 2), (None, 3), (1, None), (None, None)]
+    bounds = [(1, 3), (2, 2), (None, 3), (1, None), (None, None), (0, 3), (-3, 0), (0, 0)]
     for (lo, hi), si, ei, kind in itertools.product(bounds, (None, True, False), (None, True, False), ('num', 'time')):
         for pat in (['p', 'pm', 'mp', ''] if tier == 'thorough' else ['pm']):
             kw = dict(valid_span=(None if lo is None else Fr(lo), None if hi is None else Fr(hi)))
@@ -245,9 +253,21 @@ def pressure(tier):
 # ------------------------------------------------------------------------------------------------
 # climatology
 
+def _epoch(y, m, d, hh=0):
+    import datetime as _dt
+    return int((_dt.datetime(y, m, d, hh) - _dt.datetime(1970, 1, 1)).total_seconds())
+
+
+# real calendar instants (the calendar attributes are computed with the stdlib datetime module):
+#   2021-01-02 (ISO week 53 of 2020, day-of-year 2), 2021-02-01 (month 2, week 5, doy 32: lower span ends),
+#   2021-02-10 (inside), 2021-03-31 (month 3, week 13, doy 90: upper span ends), 2024-12-30 (ISO week 1 of 2025, doy 365, Q4)
+CLIM_T = [_epoch(2021, 1, 2), _epoch(2021, 2, 1), _epoch(2021, 2, 10), _epoch(2021, 3, 31), _epoch(2024, 12, 30)]
+T_LO, T_HI = CLIM_T[1], CLIM_T[3]
+
+
 def clim_members():
     """member lists covering: absolute / periodic spans, with / without depth and fail spans, overlap, order"""
-    T = (100, 200)
+    T = (T_LO, T_HI)
     base = dict(tspan=T, vspan=(2, 4))
     out = {
         'none': [],
@@ -255,40 +275,35 @@ def clim_members():
         'abs-f': [dict(base, fspan=(1, 5))],
         'abs-z': [dict(base, zspan=(10, 20))],
         'abs-zf': [dict(base, zspan=(20, 10), fspan=(5, 1))],
-        'abs-rev': [dict(tspan=(200, 100), vspan=(4, 2))],
+        'abs-rev': [dict(tspan=(T_HI, T_LO), vspan=(4, 2))],
         'month': [dict(tspan=(2, 3), vspan=(2, 4), period='month')],
         'month-z': [dict(tspan=(2, 3), vspan=(2, 4), period='month', zspan=(10, 20))],
         'month-zf': [dict(tspan=(3, 2), vspan=(2, 4), period='month', zspan=(10, 20), fspan=(1, 5))],
-        'week': [dict(tspan=(5, 6), vspan=(2, 4), period='week')],
-        'weekofyear-z': [dict(tspan=(5, 6), vspan=(2, 4), period='weekofyear', zspan=(10, 20))],
-        'dayofyear': [dict(tspan=(40, 50), vspan=(2, 4), period='dayofyear', fspan=(0, 6))],
+        'week': [dict(tspan=(5, 13), vspan=(2, 4), period='week')],
+        'week-edge': [dict(tspan=(52, 53), vspan=(2, 4), period='week'), dict(tspan=(1, 1), vspan=(3, 6), period='weekofyear', fspan=(0, 8))],
+        'weekofyear-z': [dict(tspan=(5, 13), vspan=(2, 4), period='weekofyear', zspan=(10, 20))],
+        'dayofyear': [dict(tspan=(32, 90), vspan=(2, 4), period='dayofyear', fspan=(0, 6))],
+        'dayofyear-edge': [dict(tspan=(365, 366), vspan=(2, 4), period='dayofyear'), dict(tspan=(1, 2), vspan=(3, 6), period='dayofyear')],
         'quarter-z': [dict(tspan=(1, 1), vspan=(2, 4), period='quarter', zspan=(10, 20))],
-        'overlap': [dict(base), dict(tspan=(150, 250), vspan=(3, 6), fspan=(0, 8))],
-        'overlap-rev': [dict(tspan=(150, 250), vspan=(3, 6), fspan=(0, 8)), dict(base)],
-        'overlap-z': [dict(base), dict(tspan=(100, 200), vspan=(3, 6), zspan=(10, 20))],
+        'year': [dict(tspan=(2021, 2021), vspan=(2, 4), period='year')],
+        'overlap': [dict(base), dict(tspan=(CLIM_T[2], CLIM_T[4]), vspan=(3, 6), fspan=(0, 8))],
+        'overlap-rev': [dict(tspan=(CLIM_T[2], CLIM_T[4]), vspan=(3, 6), fspan=(0, 8)), dict(base)],
+        'overlap-z': [dict(base), dict(tspan=T, vspan=(3, 6), zspan=(10, 20))],
+        'z-then-plain': [dict(tspan=T, vspan=(3, 6), zspan=(10, 20)), dict(base)],
+        'z-then-month': [dict(tspan=T, vspan=(3, 6), zspan=(10, 20), fspan=(0, 8)), dict(tspan=(2, 3), vspan=(2, 4), period='month')],
         'mixed': [dict(tspan=(2, 3), vspan=(2, 4), period='month'), dict(base, zspan=(10, 20), fspan=(1, 5))],
     }
     return out
 
 
-CLIM_TIMES = [
-    # (seconds, month, week, dayofyear, quarter)
-    (50, 1, 4, 30, 1),      # before the absolute span, outside the periods
-    (100, 2, 5, 40, 1),     # on the lower ends
-    (150, 2, 6, 45, 1),     # inside
-    (200, 3, 6, 50, 1),     # on the upper ends
-    (250, 4, 7, 60, 2),     # outside
-]
-
-
 def climatology(tier, carrier='list_none', tcarrier='dt64', members=None):
     from .models_pd import TS
+    from .models_lib import calendar_value
     mem = clim_members()
     feats = {}
-    for s, mo, wk, doy, qt in CLIM_TIMES:
-        for k, v in (('month', mo), ('week', wk), ('dayofyear', doy), ('quarter', qt)):
-            feats[(Fr(s), k)] = v
-    tsel = [0, 1, 2, 3, 4]
+    for s in CLIM_T:
+        for k in ('month', 'week', 'dayofyear', 'quarter', 'year', 'dayofweek', 'day'):
+            feats[(Fr(s), k)] = calendar_value(Fr(s), k)
     zvals_all = [5, 10, 15, 20, 25]
     for name, ms in mem.items():
         if members and name not in members:
@@ -312,13 +327,21 @@ def climatology(tier, carrier='list_none', tcarrier='dt64', members=None):
             for zp in zpats:
                 ipats = ['ppppp', 'pmppm', 'mpmpp'] if tier != 'thorough' else ['ppppp', 'pmppm', 'mpmpp', 'ppmpp', 'mmmmm']
                 for ip in ipats:
-                    t = [CLIM_TIMES[i][0] for i in tsel]
+                    t = list(CLIM_T)
                     zin = data_input('zinp', zp, carrier, values=[Fr(v) for v in z])
                     c = Case('climatology_test', [], dict(config=cfg, inp=data_input('inp', ip, carrier), tinp=time_input('tinp', t, tcarrier), zinp=zin),
-                             n=5, pat={'inp': ip, 'zinp': zp}, features=feats,
+                             n=5, pat={'inp': ip, 'zinp': zp},
                              meta={'class': name, 't': t, 'z': z, 'feat': feats, 'members': ms},
                              label=f'climatology_test(members={name}; inp:{ip!r} zinp:{zp!r} z={z})')
                     yield c, specs.Climatology(c)
+    # an unknown period name is rejected
+    bad = [dict(tspan=(Fr(1), Fr(2)), vspan=(Fr(2), Fr(4)), period='fortnight')]
+    c = Case('climatology_test', [], dict(config=bad, inp=data_input('inp', 'p', carrier), tinp=time_input('tinp', [CLIM_T[0]], tcarrier),
+                                          zinp=data_input('zinp', 'p', carrier, values=[Fr(1)])), n=1, pat={'inp': 'p', 'zinp': 'p'},
+             meta={'class': 'bad-period', 't': [CLIM_T[0]], 'z': [1], 'feat': {}, 'members': []}, label='climatology_test(period="fortnight")')
+    sp = specs.Climatology(c)
+    sp.rejects = ('ValueError',)
+    yield c, sp
 
 
 ALL = {
